@@ -321,7 +321,7 @@ def work(p):
         if spec.get("literal_source"):
             src = {"source": spec["literal_source"], "helpers": dict(gs.HELPERS), "features": ["literal"], "style": "literal"}
         else:
-            src = gs.build(rng, modname, {"style": style, "force": spec.get("force")})
+            src = gs.build(rng, modname, {"style": style, "force": spec.get("force"), "forbid": spec.get("forbid")})
         d = os.path.join(d0, modname)
         reexport = spec.get("style") == "relative-import-of-reexport"
         write_tree(d, modname, src["source"], src["helpers"], reexport)
